@@ -1770,7 +1770,7 @@ _PARSER_SUBST = [(r"let mut headers = \[httparse::EMPTY_HEADER; N\];", ""), (r"l
                  (r"res\.parse\(input\)", "parse_result"), (r"e == httparse::Error::TooManyHeaders", "hperr_is_too_many(e)"),
                  (r"e\.into\(\)", "hperr_into(e)"), (r"res\.version", "res_version"), (r"res\.code", "res_code"), (r"res\.headers", "res_headers"),
                  (r"builder\.header\(", "builder_header(builder, ")]
-_PARSER_PARAMS = [("parse_result", "val", "hp_result", "hpres"), ("res_version", "val", "option N", None), ("res_code", "val", "option N", None),
+_PARSER_PARAMS = [("input", "val", "bytes", None), ("parse_result", "val", "hp_result", "hpres"), ("res_version", "val", "option N", None), ("res_code", "val", "option N", None),
                   ("res_headers", "val", "list header", "list")]
 _PARSER_FUNCTIONS = {"hperr_is_too_many": "hperr_is_too_many", "hperr_into": "hperr_into", "StatusCode::from_u16": "status_from_u16",
                      "Method::from_bytes": "method_from_bytes", "builder_new": "builder_new", "builder_header": "builder_header",
@@ -1925,7 +1925,7 @@ FLOWFUNCS = [
                 (r"req\.method", "req_method"),
                 (r"Request::builder\(\)\.version\(version\)\.method\(method\)", "builder_new(version, method)"),
                 (r"builder\s*\.body\(\(\)\)", "req_builder_body(builder)")],
-         params=[("parse_result", "val", "hp_result", "hpres"), ("req_version", "val", "option N", None), ("req_method", "val", "option bytes", None),
+         params=[("input", "val", "bytes", None), ("parse_result", "val", "hp_result", "hpres"), ("req_version", "val", "option N", None), ("req_method", "val", "option bytes", None),
                  ("req_headers", "val", "list header", "list")],
          functions=_PARSER_FUNCTIONS, paths=_PARSER_PATHS, val_fields={"name": "fst", "value": "snd"},
          sum_types={"hpres": ("HpOk", "HpErr")}, err_functions=["hperr_into"], share_continuation=True, loop_state_assigned_only=True, coq_types={"builder": "(N * bytes * list header)%type"},
